@@ -307,6 +307,12 @@ class CallGraph:
                     if ft is not None:
                         return self._call_value(fn, call, ft)
                 return Site(call, "call", cands, "typed")
+            if (f.attr in ("replace", "split", "rsplit", "join", "startswith", "endswith", "strip", "lstrip", "rstrip", "removeprefix", "removesuffix", "encode",
+                           "partition", "rpartition", "format", "lower", "upper", "index", "find", "count")
+                    and call.args and all(isinstance(a, ast.Constant) and isinstance(a.value, (str, bytes)) for a in call.args) and not call.keywords):
+                # a text method called with literal text arguments (`p.replace("~1", "/")`): no method of this package
+                # with such a name takes only string literals
+                return Site(call, "call", [], "ext", ext=f"str.{f.attr}")
             by = self._byname(f.attr)
             if by:
                 return Site(call, "call", by, "byname")
